@@ -21,7 +21,7 @@ const VARIANT_NAMES: [&str; 3] = ["one", "t_2", "Up"];
 /// Comment texts: plain, empty, and texts that look like IDL (brackets before and after a colon, a
 /// colon alone, a closing bracket alone, keywords).  Which text lands on which position rotates with
 /// a per-execution offset, so that every position gets every text.
-const COMMENTS: [&str; 7] = ["c", "note: (a, b) -> x # y", "", "type T (x: int)", "the name (may be absent)", "red: the warm one", ") -> ("];
+const COMMENTS: [&str; 9] = ["c", "note: (a, b) -> x # y", "", "type T (x: int)", "the name (may be absent)", "red: the warm one", ") -> (", "#42 is the answer", "# Errors"];
 
 #[derive(Clone, Debug)]
 struct Gen {
@@ -35,12 +35,15 @@ struct Gen {
     iface_names: usize,
     /// which comment text lands on which position rotates with a per-execution offset
     rotate: bool,
+    /// member lists may also be long: 12 variants / 9 fields with long names (a rendering wider
+    /// than any line-length limit somebody might pick)
+    wide: bool,
 }
 
 impl Gen {
     fn to_json(&self) -> Value {
         json!({"max_members": self.max_members, "max_fields": self.max_fields, "type_budget": self.type_budget, "comments": self.comments, "variant_comments": self.variant_comments,
-            "layouts": self.layouts.iter().map(|l| format!("{l:?}")).collect::<Vec<_>>(), "iface_names": self.iface_names, "rotate": self.rotate})
+            "layouts": self.layouts.iter().map(|l| format!("{l:?}")).collect::<Vec<_>>(), "iface_names": self.iface_names, "rotate": self.rotate, "wide": self.wide})
     }
     fn from_json(v: &Value) -> Option<Gen> {
         Some(Gen {
@@ -52,6 +55,7 @@ impl Gen {
             layouts: v["layouts"].as_array()?.iter().map(|l| *LAYOUTS.iter().find(|x| format!("{x:?}") == l.as_str().unwrap()).unwrap()).collect(),
             iface_names: v["iface_names"].as_u64()? as usize,
             rotate: v["rotate"].as_bool().unwrap_or(false),
+            wide: v["wide"].as_bool().unwrap_or(false),
         })
     }
 
@@ -100,7 +104,12 @@ impl Gen {
         }
     }
     fn fields(&self, cx: &Ctx, budget: &mut usize, k: &mut usize, with: bool) -> Vec<RField> {
-        let n = cx.choose(self.max_fields + 1, "fields");
+        let c = cx.choose(self.max_fields + 1 + self.wide as usize, "fields");
+        if c > self.max_fields {
+            cx.goal("long-member-list");
+            return (0..9).map(|j| RField { comments: if j == 4 { self.comment(cx, k, with) } else { vec![] }, name: format!("field_with_a_long_name_{j}"), ty: if j % 2 == 0 { RType::String } else { RType::Int } }).collect();
+        }
+        let n = c;
         (0..n).map(|j| RField { comments: self.comment(cx, k, with), name: FIELD_NAMES[j].into(), ty: self.gen_type(cx, budget, true) }).collect()
     }
     fn gen(&self, cx: &Ctx) -> (RIface, Layout) {
@@ -118,8 +127,14 @@ impl Gen {
             let kind = match kind {
                 0 => RKind::TypeStruct(self.fields(cx, &mut budget, &mut k, with)),
                 1 => {
-                    let n = 1 + cx.choose(2, "enum:variants-1");
-                    RKind::TypeEnum((0..n).map(|v| RVariant { comments: self.comment(cx, &mut k, with && self.variant_comments), name: VARIANT_NAMES[v].into() }).collect())
+                    let c = cx.choose(2 + self.wide as usize, "enum:variants-1");
+                    if c == 2 {
+                        cx.goal("long-member-list");
+                        RKind::TypeEnum((0..12).map(|v| RVariant { comments: vec![], name: format!("variant_number_{v}") }).collect())
+                    } else {
+                        let n = 1 + c;
+                        RKind::TypeEnum((0..n).map(|v| RVariant { comments: self.comment(cx, &mut k, with && self.variant_comments), name: VARIANT_NAMES[v].into() }).collect())
+                    }
                 }
                 2 => RKind::Method(self.fields(cx, &mut budget, &mut k, with), self.fields(cx, &mut budget, &mut k, with)),
                 _ => RKind::Error(self.fields(cx, &mut budget, &mut k, with)),
@@ -335,7 +350,7 @@ impl Harness for TokenStrings {
 
 pub fn run_c13(tier: Tier) -> i32 {
     let mut rep = Report::new("C13", tier.name());
-    rep.rule = "positives: DFS over reference trees (interface name x members from {type-struct, type-enum, method, error} x field lists x type trees within a global budget of wrapper/inline nodes x comment on every subset of commentable positions; in the comment-texts phases every one of seven comment texts, incl. texts that look like IDL, on every position) x layouts {no optional whitespace, single spaces, newline+tab between tokens, CRLF, one field per line with comment lines}; the text comes from the harness's own renderer. Negatives: for every tree of a smaller bound, every single mutation (delete / duplicate each token, swap each adjacent pair, insert each of 10 characters at each byte, truncate at each byte) and every string of <=4/5 tokens over a 13-token alphabet after `interface a.b`. Deep nesting: four kinds of types nested 64 / 512 / 2048 levels (must parse and round-trip) and 16384 / 65536 levels (must not kill the process; rejecting them is accepted), each in a child process with an 8 MiB stack. Every text is classified by a reference recogniser written from the grammar: must-accept (tree compared incl. comments), must-reject, or don't-care (derivable only with comments/layout the statement does not name: either answer passes, but an accepted tree must still equal the denoted one)".into();
+    rep.rule = "positives: DFS over reference trees (interface name x members from {type-struct, type-enum, method, error} x field lists x type trees within a global budget of wrapper/inline nodes x comment on every subset of commentable positions; in the comment-texts phases every one of nine comment texts, incl. texts that look like IDL, on every position) x layouts {no optional whitespace, single spaces, newline+tab between tokens, CRLF, one field per line with comment lines}; the text comes from the harness's own renderer. Negatives: for every tree of a smaller bound, every single mutation (delete / duplicate each token, swap each adjacent pair, insert each of 10 characters at each byte, truncate at each byte) and every string of <=4/5 tokens over a 13-token alphabet after `interface a.b`. Deep nesting: four kinds of types nested 64 / 512 / 2048 levels (must parse and round-trip) and 16384 / 65536 levels (must not kill the process; rejecting them is accepted), each in a child process with an 8 MiB stack. Every text is classified by a reference recogniser written from the grammar: must-accept (tree compared incl. comments), must-reject, or don't-care (derivable only with comments/layout the statement does not name: either answer passes, but an accepted tree must still equal the denoted one)".into();
     rep.assumptions = vec![
         "the Varlink grammar as published on varlink.org; members may share a line only in the don't-care zone; `()` in type position is an empty struct".into(),
         "comment text is compared modulo surrounding whitespace".into(),
@@ -346,7 +361,7 @@ pub fn run_c13(tier: Tier) -> i32 {
     }
     let cfg = Config { max_wall: std::time::Duration::from_secs(tier.pick(60, 1800)), ..Default::default() };
     let all = LAYOUTS.to_vec();
-    let g = |max_members, max_fields, type_budget, comments, layouts: &[Layout], iface_names| Gen { max_members, max_fields, type_budget, comments, variant_comments: comments == 1, layouts: layouts.to_vec(), iface_names, rotate: false };
+    let g = |max_members, max_fields, type_budget, comments, layouts: &[Layout], iface_names| Gen { max_members, max_fields, type_budget, comments, variant_comments: comments == 1, layouts: layouts.to_vec(), iface_names, rotate: false, wide: false };
     let four = [Layout::Minimal, Layout::Spaced, Layout::NewlinesTabs, Layout::Crlf];
     let plan_pos: Vec<(&str, Gen)> = match tier {
         Tier::Quick => vec![
@@ -367,6 +382,7 @@ pub fn run_c13(tier: Tier) -> i32 {
     let mut plan_pos = plan_pos;
     // every comment text (incl. texts that look like IDL) on every commentable position
     plan_pos.push(("positives/comment-texts/<=1member,<=2fields,budget0", Gen { rotate: true, ..g(1, 2, 0, 1, &[Layout::Lines], 1) }));
+    plan_pos.push(("positives/long-lists/<=2members,<=1field,budget0/5-layouts", Gen { wide: true, ..g(2, 1, 0, 1, &all, 1) }));
     if tier == Tier::Thorough {
         plan_pos.push(("positives/comment-texts/<=2members,<=1field,budget0", Gen { rotate: true, ..g(2, 1, 0, 1, &[Layout::Lines], 1) }));
     }
@@ -558,13 +574,13 @@ impl Harness for RoundTrip {
 
 pub fn run_c14(tier: Tier) -> i32 {
     let mut rep = Report::new("C14", tier.name());
-    rep.rule = "DFS over reference trees as in C13 (members x field lists x type trees within a budget, comments on every subset of the interface / member / direct field / parameter / variant positions; in the comment-texts phases every one of seven comment texts - plain, empty, and texts that look like IDL: brackets before / after a colon, a colon or a closing bracket alone, keywords - on every position); each is built through zlink's public owned constructors, rendered with Display, parsed, compared deeply (comments included) and rendered again; the same for descriptions the parser produced from the harness's own text; in the `exchange` phases the description additionally travels as a GetInterfaceDescription reply through a real Connection and is parsed by the generated org.varlink.service proxy. Distinct = distinct descriptions".into();
+    rep.rule = "DFS over reference trees as in C13 (members x field lists x type trees within a budget, comments on every subset of the interface / member / direct field / parameter / variant positions; in the comment-texts phases every one of nine comment texts - plain, empty, and texts that look like IDL: brackets before / after a colon, a colon or a closing bracket alone, keywords, a text that itself starts with `#` - on every position); each is built through zlink's public owned constructors, rendered with Display, parsed, compared deeply (comments included) and rendered again; the same for descriptions the parser produced from the harness's own text; in the `exchange` phases the description additionally travels as a GetInterfaceDescription reply through a real Connection and is parsed by the generated org.varlink.service proxy. Distinct = distinct descriptions".into();
     rep.assumptions = vec!["comments are plain single-line texts without leading whitespace; comment text is compared modulo surrounding whitespace".into(), "names are legal by the grammar".into()];
-    for g in ["description-with-comments", "enum-with-commented-variant", "empty-member-list"] {
+    for g in ["description-with-comments", "enum-with-commented-variant", "empty-member-list", "long-member-list"] {
         rep.require_goal(g);
     }
     let cfg = Config { max_wall: std::time::Duration::from_secs(tier.pick(60, 1800)), ..Default::default() };
-    let g = |max_members, max_fields, type_budget, comments, iface_names| Gen { max_members, max_fields, type_budget, comments, variant_comments: comments == 1, layouts: vec![if comments == 1 { Layout::Lines } else { Layout::Spaced }], iface_names, rotate: false };
+    let g = |max_members, max_fields, type_budget, comments, iface_names| Gen { max_members, max_fields, type_budget, comments, variant_comments: comments == 1, layouts: vec![if comments == 1 { Layout::Lines } else { Layout::Spaced }], iface_names, rotate: false, wide: false };
     let plan: Vec<(&str, RoundTrip)> = match tier {
         Tier::Quick => vec![
             ("plain/<=2members,<=1field,budget1", RoundTrip { gen: g(2, 1, 1, 0, 2), exchange: false }),
@@ -588,6 +604,8 @@ pub fn run_c14(tier: Tier) -> i32 {
     // every comment text (incl. texts that look like IDL) on every commentable position
     plan.push(("comment-texts/<=1member,<=2fields,budget0", RoundTrip { gen: Gen { rotate: true, ..g(1, 2, 0, 1, 1) }, exchange: false }));
     plan.push(("exchange/comment-texts/<=1member,<=1field,budget0", RoundTrip { gen: Gen { rotate: true, ..g(1, 1, 0, 1, 1) }, exchange: true }));
+    plan.push(("long-lists/<=2members,<=1field,budget0", RoundTrip { gen: Gen { wide: true, ..g(2, 1, 0, 1, 1) }, exchange: false }));
+    plan.push(("long-lists-plain/<=2members,<=1field,budget0", RoundTrip { gen: Gen { wide: true, ..g(2, 1, 0, 0, 1) }, exchange: true }));
     if tier == Tier::Thorough {
         plan.push(("comment-texts/<=2members,<=1field,budget0", RoundTrip { gen: Gen { rotate: true, ..g(2, 1, 0, 1, 1) }, exchange: false }));
     }
